@@ -1434,7 +1434,7 @@ func (r *Resolvable) walkObject(obj *Object, parent *astjson.Value) (hasError bo
 		}
 
 		// render the initial batch of fields
-		hasErrors := r.walkFields(obj, value, parent, walkFieldsFilter{renderFields: renderFields, passThrough: false, enabled: true})
+		hasErrors := r.walkFields(obj, value, parent, walkFieldsFilter{renderFields: renderFields, passThrough: false, enabled: true, deferRoot: startedRender && r.currentDefer != nil})
 
 		if startedRender {
 			if r.currentDefer != nil {
@@ -1563,6 +1563,15 @@ type walkFieldsFilter struct {
 	passThroughFields map[int]struct{}
 	passThrough       bool
 	enabled           bool
+	// deferRoot marks the object a deferred fragment is mounted on
+	deferRoot bool
+}
+
+// delivered reports whether the walked object was already sent to the client by an
+// earlier frame: the objects a defer batch seeks through and the object the fragment
+// is mounted on. Such an object cannot be nulled anymore, the fragment fails instead.
+func (f walkFieldsFilter) delivered() bool {
+	return f.enabled && (f.passThrough || f.deferRoot)
 }
 
 func (r *Resolvable) walkFields(obj *Object, value *astjson.Value, parent *astjson.Value, filter walkFieldsFilter) (hasErrors bool) {
@@ -1602,7 +1611,7 @@ func (r *Resolvable) walkFields(obj *Object, value *astjson.Value, parent *astjs
 					}
 
 					continue
-				} else if obj.Nullable && len(obj.Path) > 0 {
+				} else if obj.Nullable && len(obj.Path) > 0 && !filter.delivered() {
 					// if the field value is not nullable, but the object is nullable
 					// we can just set the whole object to null
 					astjson.SetNull(r.astjsonArena, parent, obj.Path...)
@@ -1638,7 +1647,7 @@ func (r *Resolvable) walkFields(obj *Object, value *astjson.Value, parent *astjs
 				// Non-nullable parent: propagate error; caller closes the envelope.
 				return err
 			}
-			if obj.Nullable {
+			if obj.Nullable && !filter.delivered() {
 				if len(obj.Path) > 0 {
 					astjson.SetNull(r.astjsonArena, parent, obj.Path...)
 					return false
@@ -1929,6 +1938,11 @@ func (r *Resolvable) walkArray(arr *Array, value *astjson.Value) bool {
 		err := r.walkNode(arr.Item, arrayValue)
 		r.popArrayPathElement()
 		if err {
+			if r.currentDefer != nil && !r.enableDeferRender {
+				// a defer batch seeking through a list that was already sent to the
+				// client: its items cannot be nulled anymore, the fragment fails instead
+				return err
+			}
 			// a nullable item absorbs the error: objects and (nested) lists are nulled in place
 			if kind := arr.Item.NodeKind(); (kind == NodeKindObject || kind == NodeKindArray) && arr.Item.NodeNullable() {
 				value.SetArrayItem(r.astjsonArena, i, astjson.NullValue)
